@@ -4,8 +4,8 @@ import LolHtml.Lemmas.ParseRel
 `G` of errors: every sink operation, started in related states on the same lexeme, either ends in related
 states with the same result, or `ops₁` fails with some error of the class `G` (`OpsRelE`). Then
 `Parser::parse` over the two sinks, started on related parsers, either ends in related parsers with the same
-result, or the first one returns an error of the class (`parse_relE`; `G` must not contain `internal`-class
-errors, which `parse` reports as handler errors). `G := fun _ => False`: exact agreement.
+result, or the first one returns an error of the class (`parse_relE`; as `parse` reports it: `internal`-class
+errors become handler errors, `parseErr`). `G := fun _ => False`: exact agreement.
 
 Use: two controllers that agree until the first one returns a panic-class error (`Lemmas/CtlSim.lean`).
 The proofs are those of `Lemmas/ParseRel.lean`; the definitions that do not mention the abort (`XR`, `MR`,
@@ -473,13 +473,17 @@ theorem rel_runLoop (h : OpsRelE ops₁ ops₂ inp R G) (ht : EmitsChecked tbl =
     · obtain ⟨eA, hGA, habort⟩ := habort
       rw [habort]; exact Or.inr ⟨eA, hGA, rfl⟩
 
-/-- **Parametricity of `Parser::parse` in the sink.** (`G` must not contain `internal`-class errors, which
-`parse` reports as handler errors.) -/
-theorem parseLoop_relE (h : OpsRelE ops₁ ops₂ inp R G) (ht : EmitsChecked tbl = true) (hG : ∀ s, ¬ G (.internal s))
+/-- how `Parser::parse` reports an error signal: `internal`-class errors as handler errors -/
+def parseErr : Err → Err
+  | .internal _ => .handler
+  | e => e
+
+/-- **Parametricity of `Parser::parse` in the sink.** -/
+theorem parseLoop_relE (h : OpsRelE ops₁ ops₂ inp R G) (ht : EmitsChecked tbl = true)
     (last : Bool) (n : Nat) (p₁ : Parser κ₁) (p₂ : Parser κ₂) (hp : PR R p₁ p₂) :
     (PR R (Parser.parseLoop env₁ inp last n p₁).1 (Parser.parseLoop env₂ inp last n p₂).1 ∧
       (Parser.parseLoop env₁ inp last n p₁).2 = (Parser.parseLoop env₂ inp last n p₂).2) ∨
-    ∃ eA, G eA ∧ (Parser.parseLoop env₁ inp last n p₁).2 = .error eA := by
+    ∃ eA, G eA ∧ (Parser.parseLoop env₁ inp last n p₁).2 = .error (parseErr eA) := by
   induction n generalizing p₁ p₂ with
   | zero => exact Or.inl ⟨hp, rfl⟩
   | succ n ih =>
@@ -498,16 +502,14 @@ theorem parseLoop_relE (h : OpsRelE ops₁ ops₂ inp R G) (ht : EmitsChecked tb
       | err e => cases e <;> exact Or.inl ⟨hst, rfl⟩
     · obtain ⟨eA, hGA, habort⟩ := habort
       rw [habort]
-      cases eA with
-      | internal s => exact absurd hGA (hG s)
-      | _ => exact Or.inr ⟨_, hGA, rfl⟩
+      cases eA <;> exact Or.inr ⟨_, hGA, rfl⟩
 
-theorem parse_relE (h : OpsRelE ops₁ ops₂ inp R G) (ht : EmitsChecked tbl = true) (hG : ∀ s, ¬ G (.internal s))
+theorem parse_relE (h : OpsRelE ops₁ ops₂ inp R G) (ht : EmitsChecked tbl = true)
     (last : Bool) (p₁ : Parser κ₁) (p₂ : Parser κ₂) (hp : PR R p₁ p₂) :
     (PR R (Parser.parse env₁ inp last p₁).1 (Parser.parse env₂ inp last p₂).1 ∧
       (Parser.parse env₁ inp last p₁).2 = (Parser.parse env₂ inp last p₂).2) ∨
-    ∃ eA, G eA ∧ (Parser.parse env₁ inp last p₁).2 = .error eA :=
-  parseLoop_relE h ht hG last _ p₁ p₂ hp
+    ∃ eA, G eA ∧ (Parser.parse env₁ inp last p₁).2 = .error (parseErr eA) :=
+  parseLoop_relE h ht last _ p₁ p₂ hp
 
 end
 end LolHtml.Model.RelE
